@@ -8,13 +8,14 @@
    position and emits each as a replay case.                                            *)
 EXTENDS ShellLex, Json
 CONSTANTS Payloads
-Deliveries == {"var", "bvar", "dsub", "bqsub", "glob", "var2", "var2r", "dsub2"}   \* ..2: a second, harmless reference in the same word
+Deliveries == {"var", "bvar", "dsub", "bqsub", "glob", "glob2", "var2", "var2r", "dsub2"}   \* ..2: a second, harmless reference in the same word;
+                                                                                            \* glob2: the payload is the middle one of three matches
 Quotings   == {"unq", "dq"}
 Positions  == {"first", "middle", "last"}
 VARIABLES pay, del, q, pos, done
 vars == <<pay, del, q, pos, done>>
 Init == pay \in Payloads /\ del \in Deliveries /\ q \in Quotings /\ pos \in Positions /\ done = FALSE
-        /\ (del = "glob" => q = "unq" /\ \A i \in 1..Len(pay) : pay[i] # "/")
+        /\ (del \in {"glob", "glob2"} => q = "unq" /\ \A i \in 1..Len(pay) : pay[i] # "/")
 Finish == ~done /\ done' = TRUE /\ UNCHANGED <<pay, del, q, pos>>
 Spec == Init /\ [][Finish]_vars
 \* the word after expansion: produced characters carry the tag "exp"
